@@ -144,7 +144,7 @@ func init() {
 	reg(&Property{
 		ID: "C12", Pkgs: []string{"index/rtree"}, Level: "model_checking",
 		Rule: "one evaluation = one explored path (tree shape, sort order of branches, pruning and insertion decisions) with all boxes and the query point free grid values; non-trivial = path ends with all assertions discharged",
-		Opts: []HarnessOpt{{Prefix: "VH_C12_", Mode: "G", IfConv: true, Merge: rtMerge, MaxUnwind: 40, MaxSteps: 20_000_000}},
+		Opts: []HarnessOpt{{Prefix: "VH_C12_", Mode: "G", IfConv: true, Merge: rtMerge, MaxUnwind: 40, MaxSteps: 20_000_000, TimeoutMs: 300_000}},
 		Hooks: []HookSpec{{File: "index/rtree/rtree.go", Funcs: []string{"pickSeeds", "pickNext", "assignGroup", "chooseNode"}}},
 		Bounds: map[string]string{
 			"trees": "well-formed trees of height 1 (1..3(4) entries) and height 2 (2(3) leaves x 1..2(3) entries), boxes and query point on the signed 3-bit integer grid",
@@ -167,5 +167,26 @@ func init() {
 			"simplicity clause: input in general position (no three vertices collinear), as the property states",
 		},
 		Outside: []string{"more vertices, larger coordinates"},
+	})
+	reg(&Property{
+		ID: "C03", Pkgs: []string{"."}, Level: "model_checking",
+		Rule: "one evaluation = one explored path (shape, closed/unclosed spelling, kernel outcomes) with all coordinates free grid values (free doubles for length/buffer); non-trivial = path ends with all assertions discharged",
+		Opts: []HarnessOpt{
+			{Prefix: "VH_C03_", Mode: "G", Merge: geomMerge, IfConv: true, MaxUnwind: 16},
+			{Prefix: "VH_C03_centroid", Mode: "R", Merge: geomMerge, IfConv: true, MaxUnwind: 16},
+			{Prefix: "VH_C03_length", Mode: "F"},
+			{Prefix: "VH_C03_buffer", Mode: "F"},
+		},
+		Bounds: map[string]string{
+			"area":     "triangular shells of either winding, any rotation, closed or unclosed; one triangular hole strictly inside; two disjoint members; integer grid of 4 (5) signed bits: Area compared exactly",
+			"centroid": "closed triangles, with one hole of opposite winding; real arithmetic (every float operation exact), result compared as a polynomial identity",
+			"length":   "<=5 vertices, all doubles: Length/Buffer compared as terms with libm functions uninterpreted",
+			"distance": "<=4 vertices on the 3-bit grid",
+		},
+		Assumptions: []string{
+			"R mode (centroid): float operations are taken as exact real operations; the claim is the algebraic identity, agreement of the FP64 result is the property's 'relative tolerance'",
+			"Length/Buffer: the oracle sums in the same left-to-right order; math.Hypot/Cos/Sin are uninterpreted",
+		},
+		Outside: []string{"polygons with more vertices", "arbitrary floats for Area (rounding of the sums)", "the perpendicular-foot case of distPointToSegment (arithmetic on a rounded quotient)"},
 	})
 }
